@@ -134,3 +134,8 @@ package basicauth
 //@   at call mapupdate:*#1 before [only_an_entry_its_parser_accepted_is_installed] formatErrs == old(formatErrs) && matcher != nil && arg1 == user
 //@   loop 1 invariant unchanged_except("map:map[string]github.com/tmpim/casket/caskethttp/basicauth.PasswordMatcher", pm) && formatErrs == old(formatErrs)
 //@   loop 2 invariant unchanged_except("map:map[string]github.com/tmpim/casket/caskethttp/basicauth.PasswordMatcher", pm) && formatErrs == old(formatErrs)
+
+//@ unit constructors_sweep props=C11 nilchecks=on nonnil_params=on filter=`basicauth\.PlainMatcher$`
+//@ // constructors and helpers that this directive's setup calls but that live outside setup.go: the same safety sweep
+//@ // (index, slice, division, nil-map store, nil dereference, explicit panic) as for the setup code itself
+//@ use @verif/specs/stdlib.spec:stdlib
